@@ -50,7 +50,8 @@ def make_params(I, assemblage=("olivine",), fractions=None):
 
 
 def run_update(ctx, phase="olivine", fabric="olivine_A", regime="matrix_dislocation", N=2, nsteps=2, fail_at=None,
-               assemblage=("olivine",), stub_derivatives=True, get_regime=None, kwargs=None, phase_fractions=None, nsnap=2, param_overrides=None):
+               assemblage=("olivine",), stub_derivatives=True, get_regime=None, kwargs=None, phase_fractions=None, nsnap=2, param_overrides=None,
+               mineral_patch=None):
     """Interpret one Mineral.update_orientations call. Returns a Run with everything recorded."""
     R = Run()
     R.N = N
@@ -84,6 +85,10 @@ def run_update(ctx, phase="olivine", fabric="olivine_A", regime="matrix_dislocat
             yk = symarr(f"Yq{k}", s.attrs["y"].shape)
             g0, b0 = len(I2.guards), len(I2.branches)
             res = I2.call(fun, (tk, yk))
+            if not (isinstance(res, np.ndarray) and res.size == yk.size):
+                # SciPy refuses a right-hand side that does not return one rate per state variable
+                from ..values import ExcVal
+                raise RaiseSig(ExcVal("RuntimeError", args=("The size of the array returned by func does not match the size of y0",)))
             R.rhs_calls.append((tk, yk, res))
             R.rhs_conditions.append((list(I2.guards[g0:]), list(I2.branches[b0:])))
             if fail_at is not None and k == fail_at:
@@ -111,6 +116,8 @@ def run_update(ctx, phase="olivine", fabric="olivine_A", regime="matrix_dislocat
 
     R.I = I
     m = make_mineral(I, phase, fabric, regime, N, nsnap=nsnap)
+    if mineral_patch is not None:
+        mineral_patch(m)
     R.mineral = m
     R.nsnap = nsnap
     R.A0 = m.attrs["orientations"][-1]
